@@ -670,6 +670,22 @@ func (g *Gen) Faults(p, q *Payload, limit int) []Scenario {
 	return out
 }
 
+// ContentFaults: the faults that keep the frame count and the indices intact, so that only the checksum can
+// catch them (bit flip, truncation, extension, a frame of another payload at the same index)
+func (g *Gen) ContentFaults(p, q *Payload) []Scenario {
+	var out []Scenario
+	for _, sc := range g.Faults(p, q, -1) {
+		switch sc.Name {
+		case "bitflip", "bitflip-first-frame", "truncate-frame", "extend-frame", "swap-with-other-payload-same-index":
+			out = append(out, sc)
+		}
+	}
+	return out
+}
+
+// FlagKey is the violation key used while ipldbindcode.DisableHashVerification is set by a `flag` op
+const FlagKey = "C14:altered-accepted:hash-verification-flag"
+
 // Sizes: boundary-directed payload sizes for k frames
 func (g *Gen) Sizes(k int, max int) []int {
 	s := []int{0, 1, k - 1, k, k + 1, 2*k + 1}
